@@ -13,7 +13,7 @@ import time
 
 from . import terms as tm
 from .terms import T, INT, BOOL, STR, BYTES, J
-from .values import (Sym, JVal, Obj, PyList, PyDict, ClassVal, FuncVal, BoundMethod, Builtin, ModuleVal,
+from .values import (Sym, JVal, Obj, PyList, PyDict, FiniteMap, ClassVal, FuncVal, BoundMethod, Builtin, ModuleVal,
                      Opaque, Raise, Unsupported, SymObjSeq, kind_of, to_term, as_value, kind_sort, is_sym)
 from . import values as V
 from . import interp as I
@@ -93,6 +93,11 @@ def PYDICT(**items):
 def JSONOV(**overlay):
     """JSON dict value some of whose keys have been replaced in place by non-JSON values"""
     return Spec("jsonov", **overlay)
+
+
+def FMAP(universe, value_spec):
+    """dict over a finite universe of constant keys; each entry may be absent"""
+    return Spec("fmap", tuple(universe), value_spec)
 
 
 def OBJSEQ(cls, **fields):
@@ -219,6 +224,7 @@ class Verifier:
         self.cur_func = None
         self.counter = {}
         self.stats = {}
+        self.entry_pcs = {}      # (file, qualname) -> path conditions right after the preconditions were assumed
         self.unsupported = []
 
     # ---------------------------------------------------------------- repository lookups
@@ -337,6 +343,19 @@ class Verifier:
                         cur2 = nxt2
                     for s3 in cur2:
                         yield s3, o
+        elif tag == "fmap":
+            universe, vspec = spec.a
+            cur = [(st, {})]
+            for k in universe:
+                nxt = []
+                for s1, acc in cur:
+                    for s2, v in self.make(s1, vspec, "%s[%s]" % (name, k)):
+                        a2 = dict(acc)
+                        a2[k] = (tm.Fresh("%s.has[%s]" % (name, k), BOOL), v)
+                        nxt.append((s2, a2))
+                cur = nxt
+            for s1, acc in cur:
+                yield s1, FiniteMap(s1.alloc(acc))
         elif tag == "oneof":
             alts = list(spec.a)
             for k, alt in enumerate(alts):
@@ -551,6 +570,8 @@ class Verifier:
                 st.assume(t)
             if not ip.feasible(st):
                 continue
+            if cls.requires:
+                self.entry_pcs.setdefault((cls.file, cls.qualname), []).append(list(st.pc))
             st.entry_env = dict(env)
             for s1, out in ip.exec_block(f.node.body, st):
                 outcomes.append((s1, out, env, old))
@@ -780,6 +801,18 @@ class Verifier:
                 items = LM.concrete_items(ip, st1, it)
                 if items is not None:
                     outs.extend(self.unroll(ip, st1, node, items))
+                elif isinstance(it, JVal):
+                    # iterating a JSON value: lists item by item, strings by character, objects by key;
+                    # anything else is not iterable
+                    for st2, c in L.narrow(ip, st1, it):
+                        if isinstance(c, L.JList):
+                            outs.extend(self.loop_with_invariant(ip, st2, node, f, c))
+                        elif isinstance(c, Sym) and c.kind == "str":
+                            outs.extend(self.loop_with_invariant(ip, st2, node, f, c))
+                        elif isinstance(c, L.JDict):
+                            outs.extend(self.loop_with_invariant(ip, st2, node, f, c))
+                        else:
+                            outs.append((st2, ("raise", I.make_exc(st2, "TypeError", "object is not iterable"))))
                 else:
                     outs.extend(self.loop_with_invariant(ip, st1, node, f, it))
             return outs
@@ -825,6 +858,8 @@ class Verifier:
         if cls is None:
             raise Unsupported("loop in %s without contract/invariant" % (f.qualname if f else "?"))
         ordinal = self.loop_ordinal(f.node, node)
+        if ordinal in getattr(cls, "unwind", {}):
+            return self.unwind_loop(ip, st, node, cls, ordinal, cls.unwind[ordinal])
         if ordinal not in cls.invariants:
             raise Unsupported("no invariant for loop %d of %s" % (ordinal, cls.qualname))
         invs = cls.invariants[ordinal]
@@ -861,12 +896,17 @@ class Verifier:
         for inv in invs:
             self.emit(st, "inv-init", "%s.%s" % (label, inv.__name__), self.eval_clause(st, inv, env_of(st)))
         # 2. havoc (a ONEOF declaration forks the arbitrary iteration)
+        self._havoc_floor = I._oid[0]        # heap cells allocated from here on belong to the arbitrary iteration
         names = self.assigned_names(node.body)
         if is_for:
             for x in ast.walk(node.target):
                 if isinstance(x, ast.Name) and x.id not in names:
                     names.append(x.id)
         decl = cls.loop_locals.get(ordinal, {})
+        for nm in decl:
+            # containers mutated in place (x[k] = v, x.append(v)) are declared by the contract
+            if nm not in names and nm in fr.locals:
+                names.append(nm)
         states = [st]
         for nm in names:
             nxt = []
@@ -881,19 +921,79 @@ class Verifier:
                         fr0.locals[nm] = self.havoc_like(s0, fr0.locals[nm], nm)
                     nxt.append(s0)
             states = nxt
+        for fld, sp in self.loop_self_fields(cls, ordinal).items():
+            nxt = []
+            for s0 in states:
+                for s1, v in self.make(s0, sp, "self." + fld):
+                    s1.fields(s1.frames[-1].locals["self"], True)[fld] = v
+                    nxt.append(s1)
+            states = nxt
         outs_all = []
+        floor = self._havoc_floor
         for s0 in states:
             outs_all.extend(self._loop_iteration(ip, s0, node, cls, ordinal, invs, is_for, idx_name, elem_of, n_term,
-                                                 env_of, label, old))
+                                                 env_of, label, old, floor))
         return outs_all
 
-    def _loop_iteration(self, ip, st, node, cls, ordinal, invs, is_for, idx_name, elem_of, n_term, env_of, label, old):
+    @staticmethod
+    def loop_self_fields(cls, ordinal):
+        """fields of self that are arbitrary at the head of loop `ordinal`: what the contract declares for that loop,
+        and by default every field the function as a whole is declared to modify (`modifies_self`)"""
+        d = dict(getattr(cls, "modifies_self", None) or {})
+        d.update(getattr(cls, "loop_modifies_self", {}).get(ordinal, {}))
+        return d
+
+    @staticmethod
+    def _same_value(a, b):
+        if a is b:
+            return True
+        if isinstance(a, Sym) and isinstance(b, Sym):
+            return a.kind == b.kind and a.term is b.term
+        if isinstance(a, JVal) and isinstance(b, JVal):
+            return a.term is b.term and a.oid == b.oid
+        if isinstance(a, tuple) and isinstance(b, tuple):
+            return len(a) == len(b) and all(Verifier._same_value(x, y) for x, y in zip(a, b))
+        if isinstance(a, (Obj, PyList, PyDict, FiniteMap)) or isinstance(b, (Obj, PyList, PyDict, FiniteMap)):
+            return type(a) is type(b) and a.oid == b.oid
+        if isinstance(a, T) and isinstance(b, T):
+            return a is b
+        try:
+            return type(a) is type(b) and bool(a == b)
+        except Exception:
+            return False
+
+    def check_loop_frame(self, st_head_cells, s3, cls, ordinal, self_oid):
+        """Cut-point soundness: the arbitrary iteration started from a state in which only the declared variables
+        were arbitrary; an iteration that writes to any other object that existed before the loop would make the
+        next iteration start from a state the exploration never considered."""
+        declared = set(self.loop_self_fields(cls, ordinal))
+        for oid, snap in st_head_cells.items():
+            cur = s3.heap.get(oid)
+            if cur is None:
+                continue
+            if isinstance(snap, list):
+                same = isinstance(cur, list) and len(cur) == len(snap) and all(self._same_value(x, y) for x, y in zip(cur, snap))
+                changed = None if same else ["<list contents>"]
+            else:
+                keys = set(snap) | set(cur)
+                changed = [k for k in keys if k not in snap or k not in cur or not self._same_value(snap[k], cur[k])]
+            if not changed:
+                continue
+            if oid == self_oid and all(k in declared for k in changed):
+                continue
+            raise Unsupported("loop %d of %s writes to an object that existed before the loop (#%d: %s) and is not declared "
+                              "as modified (loop_locals / loop_modifies_self)" % (ordinal, cls.qualname, oid, sorted(map(str, changed))[:4]))
+
+    def _loop_iteration(self, ip, st, node, cls, ordinal, invs, is_for, idx_name, elem_of, n_term, env_of, label, old,
+                        floor=None):
         fr = st.frames[-1]
+        head_cells = {}
+        if floor is not None:
+            head_cells = {oid: (list(c) if isinstance(c, list) else dict(c)) for oid, c in st.heap.items() if oid <= floor}
+        self_v = fr.locals.get("self")
+        self_oid = self_v.oid if isinstance(self_v, Obj) else None
         if self.loop_touches_ghost(node, st):
             self.havoc_ghost(st, cls)
-        for fld, sp in getattr(cls, "loop_modifies_self", {}).get(ordinal, {}).items():
-            (st, v), = list(self.make(st, sp, "self." + fld))
-            st.fields(fr.locals["self"], True)[fld] = v
         if is_for:
             i_t = tm.Fresh(idx_name, INT)
             fr.locals[idx_name] = Sym("int", i_t)
@@ -934,6 +1034,7 @@ class Verifier:
                 bodies = ip.exec_block(node.body, st2)
             for s3, o in bodies:
                 if o[0] in ("normal", "continue"):
+                    self.check_loop_frame(head_cells, s3, cls, ordinal, self_oid)
                     i_next = None
                     if is_for:
                         i_next = as_value("int", tm.Add(s3.frames[-1].locals[idx_name].term, tm.Int(1)))
@@ -951,6 +1052,37 @@ class Verifier:
                     outs.append((s3, ("normal",)))
                 else:
                     outs.append((s3, o))
+        return outs
+
+    def unwind_loop(self, ip, st, node, cls, ordinal, bound):
+        """`while` loop unrolled `bound` times, then an unwinding assertion: no path may start a further iteration.
+        When that obligation is discharged the unrolling is complete (and the loop terminates on every input)."""
+        if not isinstance(node, ast.While):
+            raise Unsupported("unwind of a for loop")
+        outs = []
+        cur = [st]
+        for k in range(bound + 1):
+            nxt = []
+            for s0 in cur:
+                for st1, c in ip.eval(node.test, s0):
+                    if isinstance(c, Raise):
+                        outs.append((st1, ("raise", c.exc)))
+                        continue
+                    for st2, b in ip.branch(st1, ip.truth(st1, c)):
+                        if not b:
+                            outs.append((st2, ("normal",)))
+                            continue
+                        if k == bound:
+                            self.emit(st2, "unwind", "loop%d.at-most-%d-iterations" % (ordinal, bound), tm.FALSE)
+                            continue
+                        for s3, o in ip.exec_block(node.body, st2):
+                            if o[0] in ("normal", "continue"):
+                                nxt.append(s3)
+                            elif o[0] == "break":
+                                outs.append((s3, ("normal",)))
+                            else:
+                                outs.append((s3, o))
+            cur = nxt
         return outs
 
     def eval_value(self, st, fn, env):
@@ -1052,6 +1184,10 @@ class Verifier:
             raise Unsupported("for over JSON value whose tag is not known to be list")
         if isinstance(it, L.JList):
             return (lambda s, i: JVal(V.j_lget(it.term, i))), V.j_llen(it.term)
+        if isinstance(it, L.JDict):
+            return (lambda s, i: Sym("str", j_dict_key(it.term, i))), V.j_dlen(it.term)
+        if isinstance(it, Sym) and it.kind == "str":
+            return (lambda s, i: Sym("str", tm.Nth(it.term, i))), tm.Len(it.term)
         if isinstance(it, (PyList, tuple)):
             sym = L.to_seq_sym(st, it)
             return self.iter_model(ip, st, sym)
@@ -1317,6 +1453,7 @@ def _field(ip, st, obj, name):
 
 
 j_strlist = tm.FunDecl("j.strlist", [J], tm.SeqOf(STR))
+j_dict_key = tm.FunDecl("j.dict_key", [J, INT], STR)      # i-th key of a JSON object, in iteration order
 
 
 class RecSpec:
